@@ -385,7 +385,8 @@ def rev_shards(scratch, maxtok, modes):
 LONG_NAME = '<5000-byte object>'
 LONG_LINE = '{"k": "%s"}' % ('x' * (5000 - len('{"k": ""}')))
 assert len(LONG_LINE) == 5000
-JSONL_MENU = ('{}', '{"1": 1}', '', '[1, "\u00e9"]', '{corrupt', '   ', LONG_NAME)
+BADUTF = '{"b": "\udcff\udcfe"}'     # stands for a line holding the bytes ff fe: not valid UTF-8 (binary sources only)
+JSONL_MENU = ('{}', '{"1": 1}', '', '[1, "\u00e9"]', '{corrupt', '   ', LONG_NAME, BADUTF)
 BLANK = ('', '   ')
 JSONL_KINDS = ('file-text', 'file-rb', 'bytesio')
 
@@ -406,6 +407,8 @@ def jsonl_expected(lines, ignore_errors, reverse):
         seq = seq[::-1]
     for l in seq:
         try:
+            if l == BADUTF:
+                raise ValueError('undecodable bytes')
             out.append(json.loads(line_text(l)))
         except ValueError:
             if ignore_errors:
@@ -488,11 +491,13 @@ def jsonl_short(obj):
 
 def check_jsonl_file(jsonutils, lines, eol, trailing, path, kinds, quick, t):
     content = jsonl_content(lines, eol, trailing)
-    data = content.encode('utf-8')
+    data = content.encode('utf-8', 'surrogateescape')
     with open(path, 'wb') as f:
         f.write(data)
-    nontrivial = len(lines) >= 2 and any(l in BLANK or l == '{corrupt' for l in lines)
+    nontrivial = len(lines) >= 2 and any(l in BLANK or l in ('{corrupt', BADUTF) for l in lines)
     for kind in kinds:
+        if kind == 'file-text' and BADUTF in lines:
+            continue        # a text-mode file fails in its own decoder, before JSONLIterator sees the line
         for ignore_errors in (False, True):
             configs = [(False, None)] + [(True, bs) for bs in jsonl_blocksizes(len(data), quick)]
             for reverse, bs in configs:
